@@ -163,6 +163,19 @@ CHECKS["C19"] = dict(
               "runs observed through fd capture, canary and the output/error records",
 )
 
+CHECKS["C07"] = dict(
+    text="VyArith defines + - * / % and floor division on exact rationals over unbounded integers (BigInt/BigNat) and "
+         "recognises a result by cross-multiplication; TLC checks these predicates against native exact arithmetic on "
+         "every pair of small rationals x 6 operators, rejects perturbed results and wrong witnesses, and checks the "
+         "field identities (MC_Arith). Every call of the real overloads on the small domain, on sampled large "
+         "rationals and along random expression trees is logged exactly (numerator/denominator digits, type class) "
+         "and TLC evaluates ArithOK on it.",
+    note="Trusted: BigNat/BigInt limb arithmetic (checked against native arithmetic on the small domain). Modulo uses a "
+         "floor witness verified by TLC. Transcribed-function form: the quantifier is over inputs.",
+    ref="DESIGN.md section 6 C07",
+    technique="TLA+ spec (VyArith over BigInt) model-checked by TLC + TLC evaluation of ArithOK on every logged call",
+)
+
 NOT_APPLICABLE = {}
 
 DEFAULT_NA = ("check under construction in this round; it will be claimed when its TLA+ module and "
